@@ -266,9 +266,17 @@ def run_one(seed, preset=None, tier="quick", want_case=False):
         out = execute_once(engine, text, op_name, variables, plan, tape.sub("sched"), sched[0], sched[1],
                            "gate" if use_coercer else sched[2], root_value=plan.root_value,
                            context=context if kind == "context" else None, deny=deny_now)
+        out2, n_first = None, len(coerced)
+        if use_coercer and out.exc is None and tape.sub("again").chance(50):
+            # the same call once more on the same engine (parsed document and its errors now come from the
+            # cache): the coercer is awaited again for every error of the second response
+            out2 = execute_once(engine, text, op_name, variables, plan, tape.sub("sched2"), sched[0], sched[1], "gate",
+                                root_value=plan.root_value, context=context if kind == "context" else None, deny=deny_now)
     finally:
         forget(name)
     viol = []
+    coerced_all = coerced
+    coerced = coerced_all[:n_first]
     if out.exc is not None:
         viol.append(exc_violation(out))
         viol[-1]["sig"]["kind"] = kind
@@ -306,6 +314,21 @@ def run_one(seed, preset=None, tier="quick", want_case=False):
                 seen.add(id(c["error"]))
         if out.tasks_alive or out.parked_left:
             viol.append(V("work_left_behind", "%d tasks alive, %d gates parked when execute returned" % (out.tasks_alive, out.parked_left)))
+        if out2 is not None:
+            second = coerced_all[n_first:]
+            if out2.exc is not None:
+                viol.append(V("execute_raised", "the repeated call raised %r" % (out2.exc,), exc=type(out2.exc).__name__))
+            elif isinstance(out2.resp, dict):
+                errs2 = out2.resp.get("errors") or []
+                if len(second) != len(errs2):
+                    viol.append(V("error_coercer_call_count", "repeated call: error_coercer awaited %d times for %d reported errors" % (
+                        len(second), len(errs2)), repeated=True))
+                elif any(type(e) is not type(c["ret"]) or e != c["ret"] for e, c in zip(errs2, second)):
+                    viol.append(V("error_coercer_result_not_used", "repeated call: errors %r are not the coercer's return values %r" % (
+                        errs2[:3], [c["ret"] for c in second][:3]), repeated=True))
+                if ("data" in out2.resp) != ("data" in resp) or (out2.resp.get("data") != resp.get("data")) or len(errs2) != len(resp.get("errors") or []):
+                    viol.append(V("repeated_call_differs", "the same call repeated on the same engine: %r then %r" % (
+                        repr(resp)[:300], repr(out2.resp)[:300])))
     for v in viol:
         v["sig"].setdefault("call", kind)
     r = base_result(tape, out, viol)
@@ -323,7 +346,7 @@ def run_one(seed, preset=None, tier="quick", want_case=False):
                    "nothing_may_run": int(bool(expect_nothing_ran)), "custom_error_coercer": int(use_coercer),
                    "coercer_with_ge2_errors": int(use_coercer and len(coerced) >= 2), "response_with_errors": int(has_errors),
                    "coercer_returns_falsy": int(use_coercer and coercer_mode != "tag" and len(coerced) >= 2),
-                   "denied_by_schema_directive": int(bool(deny_now))}
+                   "denied_by_schema_directive": int(bool(deny_now)), "call_repeated_with_coercer": int(out2 is not None)}
     if viol:
         from simv.model.document import doc_to_json
         r["doc_model"] = doc_to_json(case.doc)
